@@ -615,3 +615,20 @@ Proof.
   destruct (loop_props Q sa sl codes width (ex_leaves e) 0 acc0 R Hw) as [_ [_ [_ H]]].
   apply (H l Hin).
 Qed.
+
+(* ------------------------------------------------------------------ classification chain and stuck filter *)
+
+Lemma classify_potential_spec : forall p f s h, classify p f s h = CL_POTENTIAL <-> (p = true \/ f = true).
+Proof.
+  intros p f s h. unfold classify, CL_POTENTIAL.
+  destruct p, f, s, h; cbn; split; intros H; try discriminate; auto; destruct H; discriminate.
+Qed.
+
+Lemma classify_stuck_spec : forall p f s h, classify p f s h = CL_STUCK <-> (p = false /\ f = false /\ s = true).
+Proof.
+  intros p f s h. unfold classify, CL_STUCK.
+  destruct p, f, s, h; cbn; split; intros H; try discriminate; auto; destruct H as [? [? ?]]; discriminate.
+Qed.
+
+Lemma stuck_counts_spec : forall r, stuck_counts r = true <-> r <> S_UNSAT.
+Proof. intros r. unfold stuck_counts, S_UNSAT. rewrite negb_true_iff, Z.eqb_neq. tauto. Qed.
